@@ -547,3 +547,87 @@ Theorem alternative_dot_core : forall x y,
   | _ => False
   end.
 Proof. intros. unfold dot, alternative_dot. destruct (Z.leb_spec (dot_loop 0 x y) 0); auto. Qed.
+
+(* ------------------------------------------------------------------ *)
+(* C08: sparse_cosine / sparse_alternative_cosine on the CSR encodings  *)
+(* ------------------------------------------------------------------ *)
+Theorem nz_sparse_mul : forall a b, nz (sparse_mul a b).
+Proof.
+  induction a as [|[j1 x1] a' IHa]; intros b.
+  - destruct b; cbn; auto.
+  - induction b as [|[j2 x2] b' IHb].
+    + cbn; auto.
+    + change (sparse_mul ((j1, x1) :: a') ((j2, x2) :: b')) with
+          (if j1 =? j2 then emit j1 (x1 * x2) (sparse_mul a' b')
+           else if j1 <? j2 then sparse_mul a' ((j2, x2) :: b')
+           else sparse_mul ((j1, x1) :: a') b').
+      destruct (j1 =? j2); [apply nz_emit, IHa|].
+      destruct (j1 <? j2); [apply IHa | apply IHb].
+Qed.
+
+Fixpoint mul2 (x y : list Z) : list Z :=
+  match x, y with
+  | a :: x', b :: y' => (a * b) :: mul2 x' y'
+  | _, _ => []
+  end.
+
+Lemma sget_mul2 : forall x y s i, length x = length y ->
+  sget (sparsify s (mul2 x y)) i = sget (sparsify s x) i * sget (sparsify s y) i.
+Proof.
+  induction x as [|a x IH]; intros y s i L; destruct y as [|b y]; cbn in L; try discriminate.
+  - cbn. lia.
+  - cbn [mul2]. destruct (Z.eq_dec s i) as [<-|NE].
+    + rewrite !sget_sparsify_head. reflexivity.
+    + rewrite !sget_sparsify_tail by auto. apply IH. lia.
+Qed.
+
+Theorem sparse_mul_sparsify : forall x y s, length x = length y ->
+  sparse_mul (sparsify s x) (sparsify s y) = sparsify s (mul2 x y).
+Proof.
+  intros x y s L.
+  destruct (sparse_mul_spec (sparsify s x) (sparsify s y) (s - 1) (sparsify_sorted x s) (sparsify_sorted y s)) as [S G].
+  apply (canonical _ _ (s - 1)); auto.
+  - apply nz_sparse_mul.
+  - apply sparsify_sorted.
+  - apply sparsify_nz.
+  - intros i. rewrite G, sget_mul2; auto.
+Qed.
+
+Lemma fold_sum_sparsify_mul : forall x y s acc,
+  fold_left (fun acc p => acc + snd p) (sparsify s (mul2 x y)) acc = dot_loop acc x y.
+Proof.
+  induction x as [|a x IH]; intros y s acc; destruct y as [|b y]; cbn [mul2 sparsify dot_loop fold_left]; auto.
+  unfold emit. destruct (Z.eqb_spec (a * b) 0) as [E|NE].
+  - rewrite IH. rewrite E. f_equal. lia.
+  - cbn [fold_left snd]. apply IH.
+Qed.
+
+Fixpoint nsq_loop (acc : Z) (x : list Z) : Z :=
+  match x with
+  | a :: x' => nsq_loop (acc + a * a) x'
+  | [] => acc
+  end.
+
+Lemma fold_nsq_sparsify : forall x s acc,
+  fold_left (fun acc p => acc + snd p * snd p) (sparsify s x) acc = nsq_loop acc x.
+Proof.
+  induction x as [|a x IH]; intros s acc; cbn [sparsify nsq_loop fold_left]; auto.
+  unfold emit. destruct (Z.eqb_spec a 0) as [E|NE].
+  - rewrite IH. rewrite E. f_equal. lia.
+  - cbn [fold_left snd]. apply IH.
+Qed.
+
+Lemma cos_loop_components : forall x y r nx ny, length x = length y ->
+  cos_loop r nx ny x y = (dot_loop r x y, nsq_loop nx x, nsq_loop ny y).
+Proof.
+  induction x as [|a x IH]; intros y r nx ny L; destruct y as [|b y]; cbn in L; try discriminate; cbn [cos_loop dot_loop nsq_loop]; auto.
+Qed.
+
+Theorem sparse_cosine_eq_dense : forall x y, length x = length y ->
+  sparse_cosine (sparsify 0 x) (sparsify 0 y) = cosine x y /\
+  sparse_alternative_cosine (sparsify 0 x) (sparsify 0 y) = alternative_cosine x y.
+Proof.
+  intros x y L. unfold sparse_cosine, sparse_alternative_cosine, cosine, alternative_cosine, sum_vals, norm_sq.
+  rewrite (sparse_mul_sparsify x y 0 L), fold_sum_sparsify_mul, !fold_nsq_sparsify, (cos_loop_components x y 0 0 0 L).
+  split; reflexivity.
+Qed.
